@@ -34,6 +34,18 @@ CHECKS = {
              "differentiation of the code under test. Threshold 5e-3 relative (observed worst 6e-6 after the two repairs).",
         technique="TLC model checking of Hankel.tla / Perturb.tla + replay into build_hank; delegated finite-difference relation for Fn_cov",
     ),
+    "C18": dict(
+        text="Indicators.tla: TLC enumerates pairs / single shapes / collinear seeds of Gaussian-integer vectors (2..4 "
+             "components incl. zero components), computes MAC exactly as a rational and proves MacBounded, MacSymmetric, "
+             "MacScaleInvariant (Gaussian-integer factors), MacCollinearIsOne, MacSelfIsOne; each case is evaluated by "
+             "gen.MAC / MPC / MPD / MCF / MSF: exact MAC (1e-12), matrix shape and transposition, bounds, invariance under "
+             "the case's factor and a catalogue (1e-6, 1e6, (3-i)1e3, -i, ...), constants 1 / 1 / 0 / 0 and finiteness on "
+             "collinear seeds, MSF(v, c v) = c; 8..64-component shapes sampled.",
+        ref="DESIGN.md §4.9, §5 C18",
+        note="Trusted: TLC, float comparison with stated tolerances (MPD 1e-6: arccos conditioning near 0). One listed known "
+             "finding (MPC NaN on constant vectors, pinned by a baseline test).",
+        technique="TLC model checking of Indicators.tla (exact rational MAC, scale algebra) + replay into gen.MAC/MPC/MPD/MCF/MSF",
+    ),
     "C14": dict(
         text="Setup.tla models the setup life cycle (decimate/detrend/filter/rollback/add) with a symbolic data term "
              "and exact rational metadata; TLC checks MetaTruthful, RollbackRestores, BindingFrozen, BoundToCurrent on "
